@@ -425,16 +425,42 @@ fn fn_program(kind: usize, def: Option<Q>, a: usize, b: usize) -> Option<Expect>
                 // another suffix inside the function: whether it is a local or an error is not stated
                 return None;
             }
+            // assigned twice: the last value counts
             let text = format!(
-                "{}DECLARE FUNCTION {} ()\nPRINT {}\nFUNCTION {}\n{} = {}\nEND FUNCTION\n",
+                "{}DECLARE FUNCTION {} ()\nPRINT {}\nFUNCTION {}\n{} = {}\n{} = {}\nEND FUNCTION\n",
                 head,
                 spell("Nam", s0, 0),
                 spell("Nam", s0, 1),
                 spell("Nam", s0, 2),
                 spell("Nam", s, 1),
+                lit(q0, 5).0,
+                spell("Nam", s, 2),
                 lit(q0, 8).0
             );
-            Some(Expect { text, want: Ok(format!("{}\r\n", lit(q0, 8).1)), label: format!("FUNCTION {:?}, result assigned through {:?}, default {:?}", s0, s, def), sigkey: "function result spelling".into() })
+            Some(Expect { text, want: Ok(format!("{}\r\n", lit(q0, 8).1)), label: format!("FUNCTION {:?}, result assigned twice through {:?}, default {:?}", s0, s, def), sigkey: "function result spelling".into() })
+        }
+        // the same with ANY spelling inside the function (a bare name under another default type, another
+        // suffix): what it denotes is not stated by the rules, so only a BASIC-level outcome is demanded
+        4 => {
+            let s0 = *SPELLINGS.get(a)?;
+            let s = *SPELLINGS.get(b)?;
+            let (q0, q) = (res(s0), res(s));
+            if q == q0 {
+                return None;
+            }
+            let text = format!(
+                "{}DECLARE FUNCTION {} ()\nPRINT {}\nFUNCTION {}\n{} = {}\n{} = {}\nPRINT {}\nEND FUNCTION\n",
+                head,
+                spell("Nam", s0, 0),
+                spell("Nam", s0, 1),
+                spell("Nam", s0, 2),
+                spell("Nam", s, 1),
+                lit(q, 5).0,
+                spell("Nam", s, 2),
+                lit(q, 8).0,
+                spell("Nam", s, 0),
+            );
+            Some(Expect { text, want: Ok(String::new()), label: format!("FUNCTION {:?}, spelling {:?} assigned twice inside, default {:?}", s0, s, def), sigkey: "unjudged: other spelling inside a function".into() })
         }
         // a bare or suffixed parameter takes a variable by reference only if the types agree
         2 => {
@@ -464,6 +490,8 @@ fn fn_program(kind: usize, def: Option<Q>, a: usize, b: usize) -> Option<Expect>
 fn judge(e: &Expect, g: &str, acc_hist: &mut BTreeMap<String, u64>, bads: &mut Vec<Value>, replay: Value) {
     let o = run_pipeline(&e.text, &RunOpts { budget: 300_000, ..RunOpts::default() });
     let verdict = match (&e.want, &o.end) {
+        // configurations the documented rules do not decide: any BASIC-level outcome
+        (_, End::Normal | End::LintError { .. } | End::ParseError { .. } | End::RuntimeError { .. }) if e.sigkey.starts_with("unjudged") => Ok("unjudged:basic-level-outcome".to_string()),
         (Ok(out), End::Normal) => {
             if *out == o.stdout_str() { Ok("accepted".to_string()) } else { Err(("output".to_string(), format!("expected {:?}, got {:?}", out, o.stdout_str()))) }
         }
@@ -558,7 +586,7 @@ pub fn worker(case: &Value) -> Value {
                 if kind > 4 {
                     continue;
                 }
-                let e = if g == "fn" { if kind > 3 { None } else { fn_program(kind, DEFS[df], a, b) } } else { sub_program(kind, DEFS[df], a, b) };
+                let e = if g == "fn" { fn_program(kind, DEFS[df], a, b) } else { sub_program(kind, DEFS[df], a, b) };
                 if let Some(e) = e {
                     n += 1;
                     if sample.is_null() {
@@ -585,7 +613,7 @@ pub fn drive(tier: &str) -> i32 {
         ("deftype", def_configs(quick).len()),
         ("global", DEFS.len() * decls().len() * use_sequences(if quick { 2 } else { 3 }).len()),
         ("sub", 5 * 216),
-        ("fn", 4 * 216),
+        ("fn", 5 * 216),
     ];
     for (g, t) in totals {
         let chunk = if g == "deftype" { 20 } else { 150 };
@@ -605,7 +633,7 @@ pub fn drive(tier: &str) -> i32 {
         run.capped = true;
     }
     let mut ev = Evidence::new("exploration");
-    ev.set("rule", "deftype: every DEFINT / DEFLNG / DEFSNG / DEFDBL / DEFSTR statement over every single letter and every range with ends in {A, B, M, Y, Z} (thorough: all 325 ranges), lower / mixed case of keyword and range ends, two ranges in one statement and a later statement overriding an earlier one; each program assigns the five suffixed variables of a name starting with each of the 26 letters and prints the bare name (in another letter case): the model's 26-entry default table predicts which one it is. global: default type of the first letter (none or one of 5 DEFtype statements) x declaration (none, DIM name AS each of 5 types, DIM with each of the 6 spellings) x every sequence of 1..2 (thorough 3) assignments through the 6 spellings (bare and five suffixes) in rotating letter case: the model predicts the first spelling the checker must reject (after DIM AS type only the bare name and the matching suffix are legal) or, if none, the value each spelling prints. sub: an unshared global against a local of the same spelling; DIM SHARED with each spelling while another spelling is used first in the SUB; DIM SHARED AS type against each spelling; a global CONST read and assigned in a SUB; a parameter in each spelling with another spelling used first — each under every default type. fn: a FUNCTION declared with each spelling and called with each spelling (the same function iff the types agree), its result assigned through each spelling of the same type, a parameter in each spelling given a variable of each type by reference, a parameter declared AS each type used through each spelling inside — each under every default type.");
+    ev.set("rule", "deftype: every DEFINT / DEFLNG / DEFSNG / DEFDBL / DEFSTR statement over every single letter and every range with ends in {A, B, M, Y, Z} (thorough: all 325 ranges), lower / mixed case of keyword and range ends, two ranges in one statement and a later statement overriding an earlier one; each program assigns the five suffixed variables of a name starting with each of the 26 letters and prints the bare name (in another letter case): the model's 26-entry default table predicts which one it is. global: default type of the first letter (none or one of 5 DEFtype statements) x declaration (none, DIM name AS each of 5 types, DIM with each of the 6 spellings) x every sequence of 1..2 (thorough 3) assignments through the 6 spellings (bare and five suffixes) in rotating letter case: the model predicts the first spelling the checker must reject (after DIM AS type only the bare name and the matching suffix are legal) or, if none, the value each spelling prints. sub: an unshared global against a local of the same spelling; DIM SHARED with each spelling while another spelling is used first in the SUB; DIM SHARED AS type against each spelling; a global CONST read and assigned in a SUB; a parameter in each spelling with another spelling used first — each under every default type. fn: a FUNCTION declared with each spelling and called with each spelling (the same function iff the types agree), its result assigned twice through each spelling of the same type (the last value counts) and through every other spelling (not decided by the rules: any BASIC-level outcome, no internal failure), a parameter in each spelling given a variable of each type by reference, a parameter declared AS each type used through each spelling inside — each under every default type.");
     ev.set("exhaustive", !run.capped);
     ev.set("plan", json!(plan));
     ev.set("distinct_nontrivial", run.nontrivial);
